@@ -31,3 +31,24 @@ Ltac expose_stm :=
 (** relative difference of the two densities *)
 Definition rel_liq (t p : R) : R := Rabs ((rho67_liq t p - rho97_liq t p) / rho97_liq t p).
 Definition rel_stm (t p : R) : R := Rabs ((rho67_stm t p - rho97_stm t p) / rho97_stm t p).
+
+(** internal energies *)
+Definition u67_liq (t p : R) : R := nth (out_pos cowat_off_traced 1) (evalR fn0 (fun i => nth i [t; p] 0) (coefQ cowat_off_coefs_Q) cowat_off_nodes) 0.
+Definition u97_liq (t p : R) : R := nth (out_pos cowat97_traced 1) (evalR fn0 (fun i => nth i [t; p] 0) (coefQ cowat97_coefs_Q) cowat97_nodes) 0.
+Definition u67_stm (t p : R) : R := nth (out_pos supst_off_traced 1) (evalR fn0 (fun i => nth i [t; p] 0) (coefQ supst_off_coefs_Q) supst_off_nodes) 0.
+Definition u97_stm (t p : R) : R := nth (out_pos supst97_traced 1) (evalR fn0 (fun i => nth i [t; p] 0) (coefQ supst97_coefs_Q) supst97_nodes) 0.
+Ltac expose_uliq :=
+  unfold u67_liq, u97_liq;
+  lazy [out_pos cowat_off_traced cowat97_traced t_paths p_out nth];
+  lazy [evalR eval_nodes eval_node get nth map cowat_off_nodes cowat97_nodes coefQ cowat_off_coefs_Q cowat97_coefs_Q
+        cowat_a_Q cowat_sa_Q i97_nr1_Q app];
+  unfold Q2R; cbn [Qnum Qden].
+Ltac expose_ustm :=
+  unfold u67_stm, u97_stm;
+  lazy [out_pos supst_off_traced supst97_traced t_paths p_out nth];
+  lazy [evalR eval_nodes eval_node get nth map supst_off_nodes supst97_nodes coefQ supst_off_coefs_Q supst97_coefs_Q
+        supst_b_Q supst_sb_Q i97_n0r2_Q i97_nr2_Q app];
+  unfold Q2R; cbn [Qnum Qden].
+(** liquid: absolute difference (the energy passes through zero near 0 degC); steam: relative *)
+Definition du_liq (t p : R) : R := Rabs (u67_liq t p - u97_liq t p).
+Definition relu_stm (t p : R) : R := Rabs ((u67_stm t p - u97_stm t p) / u97_stm t p).
